@@ -58,7 +58,10 @@ func NewNotification(method string, params map[string]interface{}) *Notification
 
 	// Extract meta-field if present
 	if meta, ok := params["_meta"]; ok {
-		if metaMap, ok := meta.(map[string]interface{}); ok {
+		switch metaMap := meta.(type) {
+		case map[string]interface{}:
+			notificationParams.Meta = metaMap
+		case Meta:
 			notificationParams.Meta = metaMap
 		}
 		delete(params, "_meta")
